@@ -1,7 +1,7 @@
 (* Check/ChkParse.v — judges of C04, C05, C12 for auparse. *)
 From Coq Require Import List Ascii String NArith ZArith Bool Arith.
 Import ListNotations.
-Require Import KV Trim Header Parser.
+Require Import KV Trim Header Parser ToMap.
 Require MsgType Dec.
 Local Close Scope N_scope.
 Local Open Scope nat_scope.
@@ -10,7 +10,13 @@ Local Open Scope list_scope.
 Definition obeq (a b : option str) : bool := match a, b with Some x, Some y => beq x y | None, None => true | _, _ => false end.
 
 (* ---------- C04 ---------- *)
-Record hobs := MkObs { o_type : N; o_sec : Z; o_nsec : N; o_seq : N; o_raw : str; o_rt : str; o_ts : str; o_sq : str; o_rawmsg : str }.
+Record hobs := MkObs { o_type : N; o_sec : Z; o_nsec : N; o_seq : N; o_raw : str; o_rt : str; o_ts : str; o_sq : str; o_rawmsg : str;
+                       o_data : option (list (str * str)); o_err : option str; o_map : list (str * str) }.
+(* the string-valued entries of ToMapStr() are the model's map over what Data() returned (tags, the only other entry, is a list) *)
+Definition msub (a b : list (str * str)) : bool := forallb (fun e => match mget (fst e) b with Some v => beq v (snd e) | None => false end) a.
+Definition to_map_ok (o : hobs) : bool :=
+  let m := to_map_str_err (o_rt o) (o_ts o) (o_sq o) (o_rawmsg o) (o_data o) (o_err o) in
+  msub (o_map o) m && msub m (o_map o) && (List.length (o_map o) =? List.length m).
 Inductive hcase := HCase (rendered : bool) (T : N) (Sec : N) (mmm : N) (Nq : N) (after : str) (want_ts : str) (line : str) (agree : bool) (res : option hobs).
 
 (* what a rendered line type=T msg=<after> with header audit(S.mmm:N) must parse to *)
@@ -37,7 +43,7 @@ Definition judge_c04 (c : hcase) : N :=
   match c with
   | HCase rendered T Sec mmm Nq after want_ts line agree res =>
       let well_known_ok := match res with
-                           | Some o => beq (o_rt o) (MsgType.type_name (o_type o)) && beq (o_sq o) (Dec.dec (o_seq o)) && beq (o_rawmsg o) (o_raw o) && agree
+                           | Some o => beq (o_rt o) (MsgType.type_name (o_type o)) && beq (o_sq o) (Dec.dec (o_seq o)) && beq (o_rawmsg o) (o_raw o) && agree && to_map_ok o
                            | None => true end in
       if rendered && negb (chk_C04_rendered T Sec mmm Nq after want_ts agree res) then 2%N
       else if negb well_known_ok then 2%N
@@ -52,7 +58,8 @@ Definition judge_c04 (c : hcase) : N :=
 (* ---------- C12 / C05 ---------- *)
 Inductive doutcome := DOk | DPanic | DHang.
 Inductive dcase := DCase (ty : N) (raw : str) (wants : list (str * option str)) (nested_quote : bool) (oc : doutcome)
-                         (parsed repeatable : bool) (obs : option (list (str * str) * list str)).
+                         (parsed repeatable : bool) (obs : option (list (str * str) * list str))
+                | LCase (line : str) (oc : doutcome) (res : option (N * N * str)).      (* a whole line through ParseLogLine: type, sequence, RawData *)
 
 Fixpoint aget (k : str) (m : list (str * str)) : option str := match m with [] => None | (k', v) :: r => if beq k k' then Some v else aget k r end.
 Definition chk_C12 (wants : list (str * option str)) (obs : option (list (str * str) * list str)) : bool :=
@@ -90,6 +97,15 @@ Definition judge_data (which : N) (c : dcase) : N :=
           else
             if negb (chk_C12 wants obs) then (if nq then 101%N else 2%N)       (* 101: known finding, nested field with a quote inside *)
             else if data_eqb (model_data ty raw) obs then 0%N else 1%N
+      end
+  | LCase line oc res =>
+      match oc with
+      | DPanic | DHang => if (which =? 1)%N then 2%N else 0%N
+      | DOk => match parse_log_line line, res with
+               | None, None => 0%N
+               | Some a, Some (t, q, raw) => if (a_type a =? t)%N && (a_seq a =? q)%N && beq (a_raw a) raw then 0%N else 1%N
+               | _, _ => 1%N
+               end
       end
   end.
 Definition judge_c12 := judge_data 0.
